@@ -9,6 +9,7 @@ AnyBetween / AnyButBetween over the distinguished characters (bracket and regex 
 characters, a non-ASCII letter), token instances as arguments, invalid arguments, under several hash seeds."""
 from . import _cls
 from .. import vcrun
+from ._groups import EXC
 
 G9 = ["pregex.core.classes." + c + ".__init__" for c in ("AnyBetween", "AnyButBetween", "AnyFrom", "AnyButFrom")] + \
      ["pregex.core.classes.__Class." + f for f in ("__chars_to_ranges", "__process", "__init__")]     # verbose text lists what the given text lists
@@ -23,7 +24,7 @@ def run(rep, tier):
                      "forms the complement); start >= end raises InvalidRangeException; the pattern compiles")
     # G9 (VCs, all arguments): the documented exceptions iff their conditions (single character / token, start < end by code
     # point, at least one character) and the exact bracket text handed to __Class.__init__ (every special character escaped)
-    vcrun.run_functions(rep, G9, tier)
+    vcrun.run_functions(rep, G9 + EXC, tier)
     # G9's VCs (__process, __Class.__init__) use the assumed contracts of the text layer: their complete decisions F2 / F3 run here too
     from . import c07
     c07.f2(rep)
